@@ -183,10 +183,10 @@ C04StoreCauses(n, e) ==
 (* C05 -- session id renewal and cookie protection *)
 
 CookieAttrsOK(ck) ==
-  LET a == RangeS(ck.attrs)
-  IN  /\ "Path=/" \in a
-      /\ "Secure" \in a /\ "HttpOnly" \in a
-      /\ ("SameSite=Lax" \in a \/ "SameSite=Strict" \in a)
+  LET a == RangeS(ck.attrsL)      \* attribute names are case-insensitive (RFC 6265): compared in lower case, blanks removed
+  IN  /\ "path=/" \in a
+      /\ "secure" \in a /\ "httponly" \in a
+      /\ ("samesite=lax" \in a \/ "samesite=strict" \in a)
       /\ ~ck.hasDomain
 
 IssuedBefore == DOMAIN logins
